@@ -11,7 +11,13 @@ class Fn:
         self.key = crate + "::" + d["path"]
         self.blocks = d["blocks"]
         self.locals = d["locals"]
-        self.file = d.get("file", "?")
+        self.real_file = d.get("file", "?")
+        # scopes are written in terms of the parser's two main files; a private child module split off from them
+        # (`parse/escape.rs`, `parse/value_iter.rs`) is part of the same scope
+        self.file = self.real_file
+        pre, sep, rest = self.real_file.rpartition("lexpr/src/parse/")
+        if sep and "/" not in rest and rest not in ("mod.rs", "read.rs", "error.rs", "iter.rs"):
+            self.file = pre + sep + "read.rs"
         self.line_lo = d.get("line_lo", 0)
         self.line_hi = d.get("line_hi", 0)
         self.arg_count = d.get("arg_count", 0)
@@ -28,7 +34,7 @@ class Fn:
         return "<Fn %s>" % self.key
 
     def loc(self, line=None):
-        return "%s:%s" % (self.file, line if line else self.line_lo)
+        return "%s:%s" % (self.real_file, line if line else self.line_lo)
 
     # ---------------------------------------------------------------- CFG
     def term(self, b):
@@ -130,6 +136,7 @@ class Crate:
         self.fns = [Fn(f, self.name) for f in d["fns"]]
         self.by_path = {}
         self._nolife = None
+        self._byname = None
         self.by_dp = {}
         for f in self.fns:
             self.by_path.setdefault(f.path, []).append(f)
@@ -146,6 +153,16 @@ class Crate:
                 for f in self.fns:
                     self._nolife.setdefault(_strip_lifetimes(f.path), []).append(f)
             fs = self._nolife.get(_strip_lifetimes(path), [])
+        if not fs and "::" in path and not path.startswith("<"):
+            # a free function moved to a sibling / child module of the same top-level module
+            # (`parse::read::parse_r6rs_escape` -> `parse::escape::parse_r6rs_escape`): unique by its own name
+            top, base = path.split("::", 1)[0], path.rsplit("::", 1)[1]
+            if self._byname is None:
+                self._byname = {}
+                for f in self.fns:
+                    if f.kind == "fn" and not f.path.startswith("<"):
+                        self._byname.setdefault((f.path.split("::", 1)[0], f.path.rsplit("::", 1)[1]), []).append(f)
+            fs = self._byname.get((top, base), [])
         return fs[0] if len(fs) == 1 else None
 
     def fns_matching(self, pred):
